@@ -4,6 +4,7 @@ use globset::{Glob, GlobSet, GlobSetBuilder};
 
 use crate::SlocGuardError;
 use crate::error::Result;
+use crate::output::path::normalize_for_matching;
 
 use super::AllowlistRule;
 
@@ -299,7 +300,9 @@ impl StructureScanConfig {
         let file_name = path.file_name().unwrap_or_default();
         let file_name_str = file_name.to_string_lossy();
 
-        if self.scanner_exclude.is_match(file_name) || self.scanner_exclude.is_match(path) {
+        if self.scanner_exclude.is_match(file_name)
+            || self.scanner_exclude.is_match(normalize_for_matching(path))
+        {
             return true;
         }
 
@@ -318,7 +321,8 @@ impl StructureScanConfig {
     /// Check if a path should be excluded from counting (but still traversed).
     pub(crate) fn is_count_excluded(&self, path: &Path) -> bool {
         let file_name = path.file_name().unwrap_or_default();
-        self.count_exclude.is_match(file_name) || self.count_exclude.is_match(path)
+        self.count_exclude.is_match(file_name)
+            || self.count_exclude.is_match(normalize_for_matching(path))
     }
 
     /// Find the allowlist rule for a directory: the last declared rule whose scope
@@ -404,7 +408,7 @@ impl StructureScanConfig {
 
         if let Some(idx) = self
             .global_deny_patterns
-            .matches(file_path)
+            .matches(normalize_for_matching(file_path))
             .into_iter()
             .next()
         {
@@ -431,7 +435,7 @@ impl StructureScanConfig {
 
         if let Some(idx) = self
             .global_deny_dir_patterns
-            .matches(dir_path)
+            .matches(normalize_for_matching(dir_path))
             .into_iter()
             .next()
         {
